@@ -111,6 +111,34 @@ pub fn linemeasure_case(cx: &mut Ctx, n: u64, case: &Value) {
             }
         }
     }
+    // densify with bounds just below a whole fraction of a segment's length (length / max a hair above an integer: one piece more
+    // is needed than the integer suggests); the three postconditions that need no count from the specification
+    {
+        let seglens: Vec<f64> = cs.windows(2).map(|w| ((w[1].x - w[0].x).powi(2) + (w[1].y - w[0].y).powi(2)).sqrt()).filter(|l| *l > 0.0).collect();
+        if let Some(l0) = seglens.first() {
+            for max in [l0 / 3.0000005, l0 / 1.0000002, l0 / 7.00000001, l0 * 0.999999999] {
+                let got = guard(|| Euclidean.densify(&ls, max));
+                let r = got.as_ref().map_err(|e| e.clone()).and_then(|o| {
+                    let out = &o.0;
+                    let mut j = 0;
+                    for c in out { if j < cs.len() && *c == cs[j] { j += 1; } }
+                    if j != cs.len() { return Err("an original vertex is missing or out of order".to_string()); }
+                    let mut sum = 0.0;
+                    for w in out.windows(2) {
+                        let l = ((w[1].x - w[0].x).powi(2) + (w[1].y - w[0].y).powi(2)).sqrt();
+                        if l > max * (1.0 + 1e-12) { return Err(format!("segment of length {l} > max {max}")); }
+                        sum += l;
+                    }
+                    if (sum - total).abs() > 1e-9 * total.max(1.0) { return Err(format!("total length {sum} != {total}")); }
+                    Ok(())
+                });
+                match r {
+                    Ok(()) => cx.ok("densify_near_integer_ratio"),
+                    Err(e) => cx.bad("C15", "densify_near_integer_ratio", case, json!({"what": format!("densify(max = {max}), first segment length {l0}"), "detail": e})),
+                }
+            }
+        }
+    }
     // densify
     for d in case["densify"].as_array().unwrap() {
         let max = rat(&d["max"]);
